@@ -552,7 +552,7 @@ def _words_for(ntips, thorough):
     if ntips <= 4:
         return {"words": list("ACGTNRY-"), "dup": 40} if (ntips <= 3 or thorough) else \
             {"words": list("ACGTNRY-"), "stride": 3, "dup": 40}
-    return {"words": list("ACGTNRY-"), "dup": 40} if thorough else {"words": list("ACGTNRY-"), "stride": 29, "dup": 40}
+    return {"words": list("ACGTNRY-"), "dup": 40} if thorough else {"words": list("ACGTNRY-"), "stride": 61, "dup": 40}
 
 
 IUPAC = "ACGTRYMKSWBDHVN-?"
@@ -616,7 +616,9 @@ def gen_nucleotide(tier, seed):
             ntips = sum(1 for e in edges if not e.startswith("n"))
         las = length_assignments(edges, rnd, 12 if thorough else 0)
         if ntips == 5 and not thorough:
-            las = las[:8] + las[8::4]
+            las = las[:8] + las[8::8]
+        elif len(edges) == 4 and not thorough:
+            las = las[::2]
         for la in las:
             for model in NUC_MODELS:
                 grid = PARAM_GRID[model]
@@ -1117,7 +1119,8 @@ BOUNDED = {
                  "branch lengths from {0,1e-3,0.1,1.5}: all assignments up to 4 edges, else constant/rotated/one-edge-"
                  "special (+12 random, thorough); models JC69 F81 K80 HKY85 TN93 GTR GN ssGN x 3-4 parameter settings x "
                  "3 motif-probability vectors (rotated through in quick, partly crossed in thorough); every column over "
-                 "ACGTNRY- for <=3 tips (4 and 5 tips: every 3rd / 29th column in quick, all 4096 / 32768 in thorough), "
+                 "ACGTNRY- for <=3 tips (4 and 5 tips: every 3rd / 61st column in quick, all 4096 / 32768 in thorough; "
+                 "quick also halves the length assignments of the 4-edge trees), "
                  "with repeated out-of-order columns; every IUPAC symbol ACGTRYMKSWBDHVN-? on 2-3 tips; every third case "
                  "re-evaluated after changing a length and a rate parameter, some after replacing the alignment or the "
                  "motif probs; call-shape variants: lengths through the tree or through rules, motif probs through the "
